@@ -27,6 +27,10 @@ def run(run):
         run.extra.setdefault("graph_edges", {})[str(d)] = total
         for (m, s, st) in [(4, 0, 0), (1, 0, 1), (3, 2, 0), (7, 6, 1), (24, 1, 0)]:
             script += labels_to_script(paths, reset_line="Reset %d %d %d %d" % (d, m, s, st))
+    # random walks of the depth-3 and depth-4 models (path diversity beyond the edge cover)
+    for d in (3, 4):
+        walks = sim_walks(run, "MessageQSeq", "MessageQSeq_d%d.cfg" % d, 1600 if run.thorough() else 400, 60, tag="sim%d" % d)
+        script += labels_to_script(walks, reset_line="Reset %d 24 5 %d" % (d, d % 2))
     tr = exec_script(run, exe, [], script, run.path("cover.ndjson"), "edge-cover")
     check_trace(run, "edge-cover", "TraceMessageQSeq", "TraceMessageQSeq.cfg", tr)
     sample_trace(run, tr, 14)
